@@ -1,408 +1,6 @@
-#![recursion_limit = "512"]
-#![allow(clippy::too_many_arguments, clippy::type_complexity)]
-
-mod builders;
-mod c12;
-mod c13;
-mod c15;
-mod c19p;
-mod campaign;
-mod convert;
-mod crash;
-mod driver;
-mod env;
-mod evidence;
-mod exec;
-mod fin;
-mod r#gen;
-mod heap;
-mod impls;
-mod inputs;
-mod inputs_main;
-mod layout;
-mod lang;
-mod model;
-mod obs;
-mod probe;
-mod probes_main;
-mod profiles;
-mod run;
-mod templates;
-mod zst;
-
 #[global_allocator]
-static ALLOC: obs::TrackAlloc = obs::TrackAlloc;
-
-use std::time::Instant;
-
-pub fn root_dir() -> String {
-    std::env::var("GCVERIF_ROOT").unwrap_or_else(|_| "/verif".to_string())
-}
-
-pub fn seed() -> u64 {
-    std::env::var("VERIF_SEED").ok().and_then(|s| s.trim().parse::<i64>().ok()).map(|v| v as u64).unwrap_or(1)
-}
+static ALLOC: gcverif::obs::TrackAlloc = gcverif::obs::TrackAlloc;
 
 fn main() {
-    obs::install_panic_hook();
-    let args: Vec<String> = std::env::args().collect();
-    let code = match args.get(1).map(|s| s.as_str()) {
-        Some("worker") => worker(&args[2], &args[3], args.get(4).map(|s| s.as_str()).unwrap_or("rel")),
-        Some("replay") => replay(&args[2]),
-        Some("gen") => {
-            // print a few generated cases of a profile (debugging aid)
-            let plan = profiles::plan(&args[2]).expect("history property");
-            let n: usize = args.get(3).and_then(|s| s.parse().ok()).unwrap_or(3);
-            use proptest::strategy::{Strategy, ValueTree};
-            let mut runner = proptest::test_runner::TestRunner::deterministic();
-            let s = campaign::strategy(&plan, &templates::prefixes(&args[2]), plan.profile.max_steps);
-            for _ in 0..n {
-                println!("{}", s.new_tree(&mut runner).unwrap().current().to_json());
-            }
-            0
-        }
-        _ => {
-            eprintln!("usage: gcverif worker <Cxx> <quick|thorough> [build-tag] | replay <file> | gen <Cxx> [n]");
-            2
-        }
-    };
-    std::process::exit(code);
-}
-
-fn threads() -> usize {
-    std::env::var("GCVERIF_THREADS").ok().and_then(|s| s.parse().ok()).unwrap_or_else(|| std::thread::available_parallelism().map(|n| n.get()).unwrap_or(8).min(16))
-}
-
-fn worker(prop: &str, tier: &str, tag: &str) -> i32 {
-    let t0 = Instant::now();
-    let root = root_dir();
-    let seed = seed();
-    let thorough = tier == "thorough";
-    let _ = std::fs::create_dir_all(format!("{root}/failures"));
-    crash::install(&format!("{root}/failures/{prop}-crash-{tag}.json"));
-    let _ = std::fs::remove_file(format!("{root}/failures/{prop}-crash-{tag}.json"));
-    if matches!(prop, "C16" | "C17" | "C18") {
-        return input_worker(prop, tier, tag, seed, thorough, &root);
-    }
-    if matches!(prop, "C12" | "C13" | "C15") {
-        return probes_main::worker(prop, tier, tag, seed, thorough, &root, threads());
-    }
-    let Some(plan) = profiles::plan(prop) else {
-        eprintln!("gcverif: {prop} is not decided by this engine");
-        return 2;
-    };
-
-    let mut total = campaign::CampaignResult::default();
-    // 1. directed templates and the regression corpus
-    let mut fixed: Vec<(String, lang::Case)> = templates::cases(prop);
-    for dir in [format!("{root}/corpus/regress/{prop}"), format!("{root}/corpus/seed")] {
-        if let Ok(rd) = std::fs::read_dir(&dir) {
-            let mut names: Vec<_> = rd.filter_map(|e| e.ok()).map(|e| e.path()).filter(|p| p.extension().map(|x| x == "json").unwrap_or(false)).collect();
-            names.sort();
-            for p in names {
-                if let Ok(s) = std::fs::read_to_string(&p) {
-                    match evidence::case_from_file_text(&s) {
-                        Ok(c) => fixed.push((p.display().to_string(), c)),
-                        Err(e) => eprintln!("gcverif: cannot parse {}: {e}", p.display()),
-                    }
-                }
-            }
-        }
-    }
-    let n_fixed = fixed.len();
-    campaign::run_fixed(&plan, &fixed, &mut total);
-
-    // 2. random campaign
-    if total.failure.is_none() && total.internal.is_empty() {
-        let cases = std::env::var("GCVERIF_CASES").ok().and_then(|s| s.parse().ok()).unwrap_or(if thorough { plan.cases_thorough } else { plan.cases_quick });
-        let prefixes = templates::prefixes(prop);
-        let max_steps = if thorough { (plan.profile.max_steps * 5 / 2).min(150) } else { plan.profile.max_steps };
-        if thorough {
-            // half the budget on short histories (dense in small interleavings), half on long ones
-            let r1 = campaign::run(&plan, cases / 2, seed, 1, &prefixes, plan.profile.max_steps, threads());
-            merge(&mut total, r1);
-            if total.failure.is_none() && total.internal.is_empty() {
-                let r2 = campaign::run(&plan, cases / 2, seed, 2, &prefixes, max_steps, threads());
-                merge(&mut total, r2);
-            }
-        } else {
-            let r = campaign::run(&plan, cases, seed, 0, &prefixes, max_steps, threads());
-            merge(&mut total, r);
-        }
-    }
-    let mut zst_info = serde_json::json!(null);
-    let mut zst_failure: Option<String> = None;
-    if prop == "C19" {
-        let (cells, cached, first) = inputs_main::zst_table_run();
-        zst_info = serde_json::json!({"cells": cells, "cells_answered_with_the_shared_pointer": cached, "exhaustive_for": "cache alignments {1..4096, 65536, 1048576} x type alignments 1..4096 x size {0, >0} plus zero-sized types with destructors"});
-        total.evaluations += cells as u64;
-        zst_failure = first;
-    }
-    let mut conj_info = serde_json::json!(null);
-    let mut conj_violation: Option<(String, String)> = None;
-    let mut conj_trouble: Vec<String> = Vec::new();
-    if prop == "C19" && total.failure.is_none() {
-        match probe::Toolchain::from_env("C19") {
-            Ok(tc) => {
-                let repo_src = format!("{}/src", std::env::var("GCVERIF_REPO").unwrap_or_else(|_| "/repo".into()));
-                let rep = c19p::run(&tc, threads(), &repo_src);
-                tc.cleanup();
-                conj_info = serde_json::json!({"probes": rep.probes, "rejected_by_rustc": rep.rejected, "compiled_and_yielded_no_pointer": rep.compiled_none, "public_safe_functions_returning_a_Gc": rep.scanned, "classified": c19p::CLASSIFIED.len()});
-                total.evaluations += rep.probes as u64;
-                conj_violation = rep.violation;
-                conj_trouble = rep.trouble;
-            }
-            Err(e) => conj_trouble.push(e),
-        }
-    }
-    let wall = t0.elapsed().as_secs_f64();
-
-    // 3. report
-    let mut code = 0;
-    let mut violations = 0;
-    for t in &conj_trouble {
-        eprintln!("gcverif: conjuring probes cannot decide: {t}");
-        code = 2;
-    }
-    if let Some((m, prog)) = &conj_violation {
-        violations = 1;
-        let path = format!("{root}/failures/{prop}-conjured.json");
-        let _ = std::fs::write(&path, serde_json::to_string_pretty(&serde_json::json!({"property": prop, "kind": "probe-must-not-compile", "message": m, "program": prog})).unwrap());
-        println!("violated oracle: C19 conjuring — {m}");
-        println!("VIOLATION property={prop} replay={path}");
-        code = 1;
-    }
-    if let Some(m) = &zst_failure {
-        violations = 1;
-        let path = format!("{root}/failures/{prop}-zstcache.json");
-        let _ = std::fs::write(&path, serde_json::to_string_pretty(&serde_json::json!({"property": prop, "kind": "zst-table", "message": m})).unwrap());
-        println!("violated oracle: C19 zst-cache — {m}");
-        println!("VIOLATION property={prop} replay={path}");
-        code = 1;
-    }
-    if !total.internal.is_empty() {
-        eprintln!("gcverif: INTERNAL ERROR (cannot decide): {}", total.internal[0]);
-        code = 2;
-    }
-    if let Some(f) = &total.failure {
-        violations = 1;
-        let path = evidence::write_failure(&root, prop, &f.case, &f.violation);
-        println!("violated oracle: {} {} — {}", f.violation.prop, f.violation.tag, f.violation.msg);
-        println!("minimal history ({} steps): {}", f.case.steps.len(), f.case.to_json());
-        println!("VIOLATION property={prop} replay={path}");
-        code = 1;
-    }
-    let nt = total.nontrivial.len() as u64;
-    if code == 0 && nt < 2 {
-        eprintln!("gcverif: only {nt} non-trivial cases were generated for {prop}: cannot decide");
-        code = 2;
-    }
-    let samples: Vec<serde_json::Value> = total.samples.iter().filter_map(|s| serde_json::from_str(s).ok()).collect();
-    let mut cov = serde_json::json!({
-        "evaluations": total.evaluations,
-        "distinct_nontrivial": nt,
-        "rule": plan.rule,
-        "samples": samples,
-        "exhaustive": false,
-        "fixed_cases_replayed_first": n_fixed,
-        "build": tag,
-        "threads": threads(),
-        "classes": total.cov.to_json(),
-        "violations_of_other_properties_seen_and_ignored_here": total.other_prop,
-        "zst_cache_table": zst_info,
-        "conjuring_probes": conj_info,
-    });
-    if samples.is_empty() {
-        cov["samples"] = serde_json::json!([{"note": "no non-trivial case generated"}]);
-    }
-    evidence::write_part(&root, prop, tier, seed, tag, cov, plan.assumptions, wall, violations);
-    println!("{prop} {tier} [{tag}]: {} histories, {} distinct non-trivial, {:.1}s, exit {code}", total.evaluations, nt, wall);
-    code
-}
-
-fn merge(into: &mut campaign::CampaignResult, r: campaign::CampaignResult) {
-    into.evaluations += r.evaluations;
-    into.cov.merge(&r.cov);
-    into.nontrivial.extend(r.nontrivial);
-    for s in r.samples {
-        if into.samples.len() < 3 {
-            into.samples.push(s);
-        }
-    }
-    for (k, v) in r.other_prop {
-        *into.other_prop.entry(k).or_insert(0) += v;
-    }
-    into.internal.extend(r.internal);
-    if into.failure.is_none() {
-        into.failure = r.failure;
-    }
-}
-
-fn replay(path: &str) -> i32 {
-    let s = match std::fs::read_to_string(path) {
-        Ok(s) => s,
-        Err(e) => {
-            eprintln!("cannot read {path}: {e}");
-            return 2;
-        }
-    };
-    let prop = evidence::prop_from_file_text(&s);
-    if let Ok(v) = serde_json::from_str::<serde_json::Value>(&s) {
-        if let Some(kind) = v.get("kind").and_then(|k| k.as_str()) {
-            if kind.starts_with("probe") {
-                return probes_main::replay(&v, prop.as_deref().unwrap_or("?"), path);
-            }
-            return replay_input(kind, &v, prop.as_deref().unwrap_or("?"), path);
-        }
-    }
-    let case = match evidence::case_from_file_text(&s) {
-        Ok(c) => c,
-        Err(e) => {
-            eprintln!("cannot parse {path}: {e}");
-            return 2;
-        }
-    };
-    let c09 = prop.as_deref() == Some("C09");
-    let r = driver::run_case(&case, exec::ExecOpts { hook: true, c09, ..Default::default() });
-    println!("history ({} steps): {}", case.steps.len(), case.to_json());
-    for v in &r.violations {
-        println!("oracle {} {} at step {}: {}", v.prop, v.tag, v.step, v.msg);
-    }
-    for i in &r.internal {
-        println!("internal: {i}");
-    }
-    let hit = match &prop {
-        Some(p) => r.violations.iter().any(|v| driver::relevant(p, v)),
-        None => !r.violations.is_empty(),
-    };
-    if hit {
-        println!("VIOLATION property={} replay={path}", prop.unwrap_or_else(|| r.violations[0].prop.to_string()));
-        1
-    } else {
-        println!("no violation reproduced");
-        0
-    }
-}
-
-fn replay_input(kind: &str, v: &serde_json::Value, prop: &str, path: &str) -> i32 {
-    let o = match kind {
-        "layout" => match serde_json::from_value::<layout::LCase>(v["case"].clone()) {
-            Ok(c) => inputs_main::layout_outcome(&c),
-            Err(e) => {
-                eprintln!("cannot parse case: {e}");
-                return 2;
-            }
-        },
-        "builders" => match serde_json::from_value::<builders::BCase>(v["case"].clone()) {
-            Ok(c) => inputs_main::builders_outcome(&c),
-            Err(e) => {
-                eprintln!("cannot parse case: {e}");
-                return 2;
-            }
-        },
-        "impls" => match serde_json::from_value::<impls::ICase>(v["case"].clone()) {
-            Ok(c) => inputs_main::impls_outcome(&c),
-            Err(e) => {
-                eprintln!("cannot parse case: {e}");
-                return 2;
-            }
-        },
-        "zst-table" => {
-            let (_, _, first) = inputs_main::zst_table_run();
-            inputs::Outcome { errors: first.into_iter().collect(), ..Default::default() }
-        }
-        "needs-trace-table" => {
-            let mut o = inputs::Outcome::default();
-            for (ty, got, want) in impls::nt_table() {
-                if got != want {
-                    o.errors.push(format!("<{ty} as Collect>::NEEDS_TRACE is {got}, expected {want}"));
-                }
-            }
-            o
-        }
-        other => {
-            eprintln!("unknown failure kind {other}");
-            return 2;
-        }
-    };
-    println!("case: {}", v["case"]);
-    for e in &o.errors {
-        println!("oracle: {e}");
-    }
-    if o.errors.is_empty() {
-        println!("no violation reproduced");
-        0
-    } else {
-        println!("VIOLATION property={prop} replay={path}");
-        1
-    }
-}
-
-fn input_worker(prop: &str, tier: &str, tag: &str, seed: u64, thorough: bool, root: &str) -> i32 {
-    let Some(rep) = inputs_main::run(prop, thorough, seed, threads()) else { return 2 };
-    let kind = match prop {
-        "C17" => "layout",
-        "C18" => "builders",
-        _ => "impls",
-    };
-    let r = &rep.result;
-    let mut code = 0;
-    let mut violations = 0;
-    if !r.internal.is_empty() {
-        eprintln!("gcverif: INTERNAL ERROR (cannot decide): {}", r.internal[0]);
-        code = 2;
-    }
-    if let Some(m) = &rep.fixed_failure {
-        violations = 1;
-        let path = format!("{root}/failures/{prop}-needs-trace.json");
-        let _ = std::fs::write(&path, serde_json::to_string_pretty(&serde_json::json!({"property": prop, "kind": "needs-trace-table", "message": m, "case": null})).unwrap());
-        println!("violated oracle: {m}");
-        println!("VIOLATION property={prop} replay={path}");
-        code = 1;
-    } else if let Some((json, msg)) = &r.failure {
-        violations = 1;
-        use std::hash::{Hash, Hasher};
-        let mut h = std::collections::hash_map::DefaultHasher::new();
-        json.hash(&mut h);
-        let path = format!("{root}/failures/{prop}-{:016x}.json", h.finish());
-        let body = serde_json::json!({"property": prop, "kind": kind, "message": msg, "case": serde_json::from_str::<serde_json::Value>(json).unwrap()});
-        let _ = std::fs::write(&path, serde_json::to_string_pretty(&body).unwrap());
-        println!("violated oracle: {msg}");
-        println!("minimal case: {json}");
-        println!("VIOLATION property={prop} replay={path}");
-        code = 1;
-    }
-    let distinct = r.classes.len() as u64;
-    if code == 0 && distinct < 2 {
-        eprintln!("gcverif: only {distinct} distinct non-trivial classes for {prop}: cannot decide");
-        code = 2;
-    }
-    let samples: Vec<serde_json::Value> = r.samples.iter().filter_map(|s| serde_json::from_str(s).ok()).collect();
-    let mut cov = serde_json::json!({
-        "evaluations": r.evaluations,
-        "distinct_nontrivial": distinct,
-        "nontrivial_cases": r.nontrivial_cases,
-        "distinct_nontrivial_case_hashes": r.distinct_hashes.len(),
-        "rule": rep.rule,
-        "samples": samples,
-        "exhaustive": false,
-        "build": tag,
-        "classes": r.classes,
-        "counters": r.counters,
-        "extra": rep.extra,
-    });
-    if let Some(e) = rep.exhaustive_part {
-        cov["exhaustive_part"] = serde_json::json!(e);
-    }
-    if samples.is_empty() {
-        cov["samples"] = serde_json::json!([{"note": "no non-trivial case generated"}]);
-    }
-    let assumptions = [
-        "the tracking global allocator reports requested and released layouts and red-zone damage faithfully",
-        "the harness's own Collect / PtrMeta impls for its test types are correct",
-        "bounds: sizes <= 4096 bytes, alignments <= 4096, lengths <= 300 (builders <= 40); destructor panics and allocation failure are not generated",
-    ];
-    evidence::write_part(root, prop, tier, seed, tag, cov, &assumptions, rep.wall, violations);
-    println!("{prop} {tier} [{tag}]: {} cases, {} distinct non-trivial classes, {:.1}s, exit {code}", r.evaluations, distinct, rep.wall);
-    code
+    gcverif::cli_main()
 }
